@@ -115,7 +115,12 @@ impl Cache for RandomPolicy {
     }
 
     fn flush(&self, header: CacheMetaData) {
-        self.store.flush(header)
+        let immediate = header.time_to_live == 0;
+        self.store.flush(header);
+        if immediate {
+            // the store is empty now, nothing is accounted any more
+            self.memory_usage.store(0, atomic::Ordering::Release);
+        }
     }
 
     fn as_read_only(&self) -> Box<dyn CacheReadOnlyView> {
